@@ -70,6 +70,7 @@ func (s *Sort) FieldByName(n string) *Field {
 }
 
 type Sorts struct {
+	extra map[string]bool
 	byKey  map[string]*Sort
 	byName map[string]*Sort
 	boxPairs map[string][]boxPair
@@ -227,6 +228,17 @@ func typeKey(t types.Type) string {
 	}
 	walk(t)
 	return key
+}
+
+// ensureDecl adds a global declaration once.
+func (ss *Sorts) ensureDecl(key, decl string) {
+	if ss.extra == nil {
+		ss.extra = map[string]bool{}
+	}
+	if !ss.extra[key] {
+		ss.extra[key] = true
+		ss.decls = append(ss.decls, decl)
+	}
 }
 
 func (ss *Sorts) opaque(name string, t types.Type) *Sort {
